@@ -807,6 +807,8 @@ def features(x):
             f.add('assigned' if p.amt is None else 'asserted')
         if p.mark:
             f.add('post-mark')
+            if x.state and p.mark != x.state:
+                f.add('mark-pair:xact%s-post%s' % (x.state, p.mark))      # both orders of the two marks must round-trip
         if p.note:
             f.add('post-note')
         if p.amt is not None and p.amt.value == 0:
